@@ -6,24 +6,24 @@ VERIF = os.path.dirname(HERE)
 
 CHECKS = {
  'C11': dict(cat='model_checking', engine='lbzx (E1/E2)', ref='DESIGN.md §5 C11',
-   technique='stateless model checking of the real scheduler code: exhaustive delay-bounded enumeration of thread interleavings under a controlled scheduler',
-   text='Every execution of the real process.c/compress.c/expand.c task schedulers with at most d deviations (quick d=2, thorough d=3 plus one spurious condition wake-up) from three canonical schedulers, for compression (default and --sequential), decompression (stock and tiny I/O granularities) and -cdf copying, W<=2 (thorough 3), over a family of input shapes; deadlock = no enabled thread, livelock = horizon; slot counters checked at every scheduling point, queue overruns by the assertions, end state by primary_thread assertions, block order by exact output comparison.',
+   technique='stateless model checking of the real scheduler code: exhaustive enumeration of thread interleavings under a controlled scheduler (delay-bounded from canonical schedulers; all strict-priority orders; all priority-change points, i.e. exhaustive PCT)',
+   text='Every execution of the real process.c/compress.c/expand.c task schedulers (a) under every strict-priority scheduler (all K! priority orders of the threads), (b) with at most d deviations (quick 2, thorough 3 plus one spurious wake-up) from three canonical schedulers, (c) under strict priorities with 1 (all 720 orders, W=3) or 2 (orders up to worker symmetry) priority-change points on streams with planted spurious candidates and multi-buffer blocks; for compression (default and --sequential), decompression (stock and tiny I/O granularities, more tiny blocks than the 17W-3 queue capacity) and -cdf copying, W<=2 (thorough 3). Deadlock = no enabled thread, livelock = horizon; at every scheduling point slot counters and heap canaries (fixed-capacity queue overruns), at the end exact output (block order), status 0, heap released.',
    note='Trusted: the 1100-line vsched scheduler/signal model; lbzip2 data-race freedom (C12) so that scheduling at synchronisation points is enough; bounds W<=3, deviations as reported in the evidence.'),
  'C03': dict(cat='model_checking', engine='lbzx (E1/E2) + real binary', ref='DESIGN.md §5 C03',
    technique='stateless model checking: exhaustive delay-bounded enumeration of thread interleavings and of read()/write() fragmentation answers on the real code, one-outcome oracle',
    text='For each (input, level, mode) one expected compressed byte string is fixed; every execution with at most d deviations (scheduling choices and short read()/write() answers share the budget; quick d=2, thorough d=3) for W in 1..3 (4), whole-run fragmentation policies, and the real binary on stdout / FILE operand / fragmented pipe must reproduce exactly that string.',
    note='Trusted: vsched; libbz2 judging that the expected string is a valid compression; bounds as reported.'),
  'C12': dict(cat='model_checking', engine='lbzx tsan variant', ref='DESIGN.md §5 C12',
-   technique='ThreadSanitizer as per-execution oracle inside exhaustive delay-bounded schedule enumeration under the controlled scheduler',
-   text='All four pipelines (compress, --sequential, decompress incl. tiny granularities/bad CRC/-t, -cdf copy), W up to 3 (4), every execution with at most d deviations (quick 1, thorough 2) from P0/P1/P2 of a ThreadSanitizer build whose detector is told exactly lbzip2\'s own mutex/create/join edges; any race report is a violation.',
+   technique='happens-before race detectors (own vector-clock detector on clang TSan instrumentation; ThreadSanitizer) as per-execution oracles inside exhaustive bounded schedule enumeration under the controlled scheduler',
+   text="All four pipelines (compress, --sequential, decompress incl. tiny granularities/bad CRC/-t/-v, -cdf copy), W up to 3 (4): leg hbrace = every strict-priority scheduler and every execution with at most d deviations (quick 2, thorough 3) of a build whose loads/stores call our vector-clock happens-before detector for lbzip2's globals, plus streams with trailing garbage at every alignment (length mod 4 x garbage length x input block size); leg tsan = every execution with d <= 1 (2) of a ThreadSanitizer build told exactly lbzip2's own mutex/create/join edges. Any unordered conflicting access pair is a violation.",
    note='Trusted: ThreadSanitizer happens-before detection with finite history; SC interleavings; execution boundaries of the in-process executor are barriers.'),
  'C13': dict(cat='model_checking', engine='lbzx with malloc accounting', ref='DESIGN.md §5 C13',
    technique='invariant checking on every state of exhaustively enumerated bounded schedules: live heap bytes <= linear bound(W)',
-   text='Live heap bytes are compared at every scheduling point of every execution with <= d deviations (quick 1, thorough 2) with the linear-in-W bound the slot discipline allows (computed from the running program\'s slot counts and buffer sizes); slot totals must stay within 2x the documented per-worker constants; canonical runs on inputs growing to 640 MB decoded (zero bombs) and 96 chunks must not raise the peak once the pipeline is saturated.',
+   text="At every scheduling point of every execution (all strict-priority schedulers; <= d deviations, quick 1, thorough 2) live heap bytes must stay below the linear-in-W bound the slot discipline allows (computed from the running program's slot counts and buffer sizes), slot totals within twice the documented per-worker constants, and at a successful exit every heap block must have been released (a block lost per compressed block or per spurious candidate grows with the input); inputs: zero bombs, incompressible blocks, compression shapes, streams with spurious block headers and complete planted blocks; canonical runs on inputs growing to 640 MB decoded and 96 chunks must not raise the peak.",
    note='Live heap bytes stand in for RSS; thread stacks fixed; fragmentation not modelled.'),
  'C19': dict(cat='model_checking', engine='lbzx (E1/E2)', ref='DESIGN.md §5 C19',
    technique='stateless model checking of the 3-thread copy pipeline: exhaustive enumeration of interleavings and short-read answers up to a deviation bound',
-   text='Every execution with <= d deviations (quick 2 for all inputs and 3 for the small/header inputs, thorough 4) of main/reader/writer scheduling and short reads, for all lengths 0..12 and around 1x/2x/3x the 64 KiB buffer, with every near-miss of the BZh[1-9] magic as prefix; output must equal the input, status 0, stderr empty, termination; inputs that do start with a stream header must end exactly as under plain -d.',
+   text='Every execution with <= d deviations (quick 2 for all inputs and 3 for the small/header inputs, thorough 4) of main/reader/writer scheduling and short reads, for all lengths 0..12 and around 1x/2x/3x the 64 KiB buffer, with every near-miss of the BZh[1-9] magic as prefix; output must equal the input, status 0, stderr empty, termination; inputs that do start with a stream header must end exactly as under plain -d; the same pass-through as second operand after a decompressed, copied, empty or missing first operand.',
    note='Pipe fragmentation is modelled as read() returning fewer bytes than asked; vsched trusted.'),
  'C01': dict(cat='model_checking', engine='codecx (E6) + lbzx batch + lbzx explorer (E1/E2)', ref='DESIGN.md §5 C01',
    technique='bounded-exhaustive enumeration of inputs x block capacities through the real codec chain (round-trip oracle) plus stateless model checking (delay-bounded schedule enumeration) of whole-program compression and decompression runs',
@@ -59,8 +59,8 @@ CHECKS = {
    note='Granularities set through hook H1. Trusted: vsched, bzref.'),
  'C10': dict(cat='model_checking', engine='bzgen planted headers + lbzx explorer (E1/E2) + hooks H1/H2', ref='DESIGN.md §5 C10',
    technique='stateless model checking: delay-bounded enumeration of interleavings of parser/scanner/retriever tasks on inputs with planted block-header patterns, oracle = sequential reference decoding',
-   text='Streams with the 48-bit pattern planted in selector lists at every bit phase, across input-block boundaries, in trailing data (fake blocks, whole streams, broken streams), after broken streams; W 1..3 x input block sizes x three canonical schedules, and every execution with <= d deviations (quick 2, thorough 3) for W 2..3. Status and bytes must equal the sequential reference decoding; scheduler counters conserved. H2 events count candidates created/adopted/discarded/aborted/rejected so vacuity is visible.',
-   note='Trusted: vsched, bzref. Complete decodable spurious blocks are constructible only in trailing data / after a broken stream.'),
+   text='Streams with the 48-bit pattern planted in selector lists at every bit phase, across input-block boundaries, in trailing data (fake blocks, whole streams, broken streams), after broken streams, and complete decodable blocks planted verbatim inside valid compressed data (carrier blocks); W 1..3 x input block sizes x three canonical schedules, and every execution with <= d deviations (quick 2, thorough 3) for W 2..3. Status and bytes must equal the sequential reference decoding; scheduler counters conserved, heap released. H2 events count candidates created/adopted/discarded/aborted/rejected so vacuity is visible.',
+   note='Trusted: vsched, bzref.'),
  'C14': dict(cat='model_checking', engine='codecx (E6)', ref='DESIGN.md §5 C14',
    technique='explicit-state product construction of mini_dfa with the definitional matcher (complete language equivalence), all 49x256 big_dfa entries, exhaustive placement enumeration for scan()',
    text='All reachable (mini_dfa state, reference state) pairs agree on prefix length and acceptance; every big_dfa entry equals eight mini_dfa steps; scan() on buffers with the pattern at every bit offset over 101 backgrounds (near misses, repeated prefixes, overlaps), second copies, every start bit 0..64 and skip 0..168: reported position is exactly a real occurrence + 32 bits and no complete occurrence in range is missed.',
@@ -71,11 +71,11 @@ CHECKS = {
    note='Trusted: bzref for field offsets (a wrong offset would make the unflipped control fail).'),
  'C16': dict(cat='fault_enumeration', engine='lbzx explorer with file-system fixtures and file-operation interposition', ref='DESIGN.md §5 C16',
    technique='exhaustive crash-point / fault enumeration: every system-call position x errno, SIGKILL before/after each call, SIGINT/SIGTERM at every scheduling point, combined with scheduling deviations up to a bound; end-state oracle on the directory',
-   text='For 6 (12) one-operand histories (compress/decompress, 0/1/3 blocks, -k, corrupt input) every execution with <= d deviations (quick 2, thorough 3), a deviation being an errno failure of one open/read/write/close/fchown/fchmod/futimens/unlink/lstat call, SIGKILL at one call, SIGINT/SIGTERM at one scheduling point, or one scheduling choice; after each the directory must be S1 (input unchanged, nothing else) or S2 (complete output, input gone unless -k) consistent with the exit status / signal.',
+   text='For 8 (14) one-operand histories (compress/decompress, 0/1/3 blocks, -k, -u, -v, corrupt, truncated) every execution with <= d deviations (quick 2, thorough 3), a deviation being an errno failure of one open/read/write/close/fchown/fchmod/futimens/unlink/lstat call, a failing flush of stderr (EPIPE+SIGPIPE, EIO) at one message, SIGKILL at one call, SIGINT/SIGTERM at one scheduling point, or one scheduling choice; after each the directory must be S1 (input unchanged, nothing else) or S2 (complete output, input gone unless -k) consistent with the exit status / signal.',
    note='Real main.c/signals.c/process.c code with real file system calls in a scratch directory; kernel signal/I-O semantics are vsched\'s model.'),
  'C17': dict(cat='exploration', engine='lbzx batch with file-system fixtures vs table model', ref='DESIGN.md §5 C17',
    technique='exhaustive configuration-product enumeration against a reference rule table written from the statement/man page',
-   text='Mode x legal subsets of -k/-c/-t/-f x operand type (regular, symlink, hard-linked, directory, missing) x 9 name suffixes x pre-existing output (absent/regular/read-only) x permission bits x timestamps, one fresh directory per case, whole program: action (skip+warn 4 / process / stream), output name, sentinel survival, mode bits, atime/mtime, input removal, output bytes.',
+   text='Mode x legal subsets of -k/-c/-t/-f x operand type (regular, symlink, hard-linked, directory, missing) x 9 name suffixes x pre-existing output (absent/regular/read-only) x permission bits x timestamps, one fresh directory per case, whole program: action (skip+warn 4 / process / stream), output name, sentinel survival, mode bits, atime/mtime, input removal, output bytes, against a rule table; plus, for skipped operands, every execution with <= 1 (2) deviations (failing stderr at the warning, errno on a file operation, scheduling): nothing that existed may change.',
    note='Runs as root: permission-denied cases cannot be produced.'),
  'C18': dict(cat='model_checking', engine='lbzx batch with fixtures + explorer', ref='DESIGN.md §5 C18',
    technique='enumeration of all operand sequences up to depth 2 (3) with a differential oracle (combined invocation vs one invocation per operand), plus delay-bounded schedule enumeration of two-operand runs',
@@ -87,7 +87,7 @@ CHECKS = {
    note='Reference optimum (package-merge on sorted lists) is validated against exhaustive search inside each run.'),
  'C21': dict(cat='fault_enumeration', engine='lbzx explorer (E1/E2)', ref='DESIGN.md §5 C21',
    technique='exhaustive fault enumeration: an I/O error at every read()/write() position x errno x signal disposition, combined with delay-bounded scheduling deviations; deadlock/horizon detection',
-   text='Filter runs of compression (both modes), decompression and -cdf copy, W 1..3: every execution with <= d deviations (quick 2, thorough 3) where a deviation is EIO on one read, EIO/ENOSPC/EPIPE/EFBIG on one write, or a scheduling choice; default and ignored SIGPIPE/SIGXFSZ. Oracle: ends (no deadlock, no horizon), status 1 or death by SIGPIPE/SIGXFSZ, never 0, diagnostic unless EPIPE/EFBIG.',
+   text='Filter runs of compression (both modes), decompression and -cdf copy, W 1..3: every execution with <= d deviations (quick 2, thorough 3) where a deviation is EIO on one read, EIO/ENOSPC/EPIPE/EFBIG on one write, or a scheduling choice; default and ignored SIGPIPE/SIGXFSZ; also with a signal mask inherited from a parent that blocked every signal lbzip2 uses. Oracle: ends (no deadlock, no horizon), status 1 or death by SIGPIPE/SIGXFSZ, never 0, diagnostic unless EPIPE/EFBIG.',
    note='Signal semantics are vsched\'s model (thread-directed SIGPIPE/SIGXFSZ, sigsuspend, masks).'),
  'C22': dict(cat='model_checking', engine='lbzx batch with fixtures vs rule table', ref='DESIGN.md §5 C22',
    technique='enumeration of all option-token sequences up to depth 2 (3) x invocation names x token placement, with differential (env vs argv, no-op insertion) and rule-table oracles',
